@@ -1130,6 +1130,20 @@ Section Proofs.
     apply (@list_shows _ _ r_filter str_ltb ltb_irrefl ltb_trans). apply (i_sorted (inv_at sched)).
   Qed.
 
+  (* what a seeded subscription has been delivered when the calls have returned leads from its
+     snapshot to the final contents, each event describing one transition (the hypothesis of the
+     theorem about subscribers without backpressure, LossyProofs.lossy_received_plus_pending) *)
+  Theorem deliveries_chain_done sched u :
+    let s := run sched s0 in
+    all_done s = true -> In u (st_csubs s) -> plain_sub u ->
+    chain (c_items (cs_at u)) (cs_evs u) (c_items (w_c (st_w s))).
+  Proof.
+    simpl. intros D Hu Hp. pose proof (tinv_run sched) as TI.
+    destruct (done_all_left TI D) as [_ El].
+    destruct (t_csubs TI _ Hu) as [_ _ _ E _ _ _ Hs C _]. specialize (C Hp).
+    unfold plain_sub in Hp. unfold from_c in E. rewrite Hp, El, seg_all in E. rewrite <- E in C. exact C.
+  Qed.
+
   Theorem converges_collection_updates_only sched u :
     let s := run sched s0 in
     all_done s = true -> In u (st_csubs s) -> uo_sub u ->
